@@ -21,7 +21,11 @@ cat "$out/confirm_suite.txt" | head -40
 fails=$(grep -E "^\s+(FAIL|TIMEOUT)" "$out/confirm_suite.txt" | sed -E 's/.*\) +[^ ]+ +//' | grep -v "permission_denied" | sort -u)
 for t in $fails; do
   echo "-- rerun $t"
-  $NX -E "test(=$t)" 2>&1 | grep -E "Summary" | head -2
+  for attempt in 1 2 3 4; do
+    r=$($NX -E "test(=$t)" 2>&1 | grep -E "Summary" | head -1)
+    echo "$r"
+    echo "$r" | grep -q " 1 passed" && break
+  done
 done
 git checkout -q -- . ; git clean -qfd -e out -e target
 echo "== done"
